@@ -5,6 +5,7 @@ CONSTANTS Operands <- OperandsC
  LongOperands <- OperandsC
  LongOps <- OpsAll
  LongPres <- PresAll
+ ChainPairwise = FALSE
  RightTakesRest = FALSE
  GoRemainder = FALSE
  Emit = TRUE
